@@ -76,7 +76,7 @@ def validate_pvt(pvt, name, last_time, row_names):
         errs.append("%s.row declares %d rows, %s.prv header says %d" % (name, pvt.row.declared, name, prv.nrows))
     if len(pvt.row.names) != pvt.row.declared:
         errs.append("%s.row lists %d names but declares %d" % (name, len(pvt.row.names), pvt.row.declared))
-    if row_names is not None and pvt.row.names != row_names:
+    if row_names is not None and [W.name_key(n) for n in pvt.row.names] != [W.name_key(n) for n in row_names]:
         errs.append("%s.row order/names differ: got %r, documented order gives %r" % (name, pvt.row.names[:8], row_names[:8]))
     return errs
 
